@@ -32,6 +32,13 @@ def eig_atoms(tri):
     return [alg.Fn("eigvalsh", tri, k) for k in range(3)], [[alg.Fn("eigh.vec", tri, i, k) for k in range(3)] for i in range(3)]
 
 
+def eigen_axis(ctx, rule, tag, M, lam, v, loc):
+    """v is a unit eigenvector of the symmetric matrix M for the eigenvalue lam (an axis: no sign convention is demanded)."""
+    res = [sum((M[i, j] * v[j] for j in range(3)), ZERO) - lam * v[i] for i in range(3)]
+    ident_arr(ctx, rule, f"{tag}: M v = lambda_max v", mkarr(res), mkarr([ZERO, ZERO, ZERO]), loc, what="eigen-equation residual")
+    ident(ctx, rule, f"{tag}: unit length", sum((x * x for x in v), ZERO), ONE, loc)
+
+
 def same_tris(got, tri):
     """The set of eigen-solver arguments met equals {tri} (cellwise, decided by the algebra)."""
     if len(got) != 1:
@@ -54,9 +61,9 @@ def run(ctx):
     ctx.rule("C13.scatter", "the matrix handed to the eigen-solver has lower triangle sum_g A[g,row,i]·A[g,row,j] for the row of the axis letter")
     ctx.rule("C13.objective", "scatter matrix: even in each grain's row sign, invariant under grain permutation, covariant under A -> A·Q^T")
     ctx.rule("C13.pgr", "P, G, R equal the reference formulas in the ascending eigenvalue atoms; P+G+R == 1")
-    ctx.rule("C13.bingham", "bingham_average == normalised eigenvector column of the largest eigenvalue of the same scatter matrix")
+    ctx.rule("C13.bingham", "bingham_average(axis) = v with S v == lambda_max(S) v and v.v == 1 for the scatter matrix S of that axis (eigen-equation: any way of computing the axis, any sign)")
     ctx.rule("C13.coaxial", "coaxial_index == (2 - P1/(G1+P1) - G2/(G2+P2))/2 with the PGR atoms of axis1 and axis2")
-    ctx.rule("C13.finite-strain", "finite_strain(F) == (sqrt(eig_max(F·F^T)) - 1, matching eigenvector column)")
+    ctx.rule("C13.finite-strain", "finite_strain(F) = (sqrt(lambda_max(F F^T)) - 1, v) with F F^T v == lambda_max v and v.v == 1 (eigen-equation: any way of computing it, any sign)")
     ctx.rule("C13.axis-table", "letters a,b,c map to rows 0,1,2 in both functions; any other letter raises ValueError")
     I = Interp(ctx.program)
     D = "pydrex.diagnostics."
@@ -95,15 +102,20 @@ def run(ctx):
                 explore_exits(ctx, "C13.pgr", f"symmetry_pgr({letter})", Ig, 0, lambda: Interp(ctx.program),
                               lambda I_, letter=letter: I_.call(public(ctx, I_, D + "symmetry_pgr"), (A.copy(), letter)), ref, loc, what="(P, G, R)")
             else:
-                v = [vec[i][2] for i in range(3)]
-                nrm = Sqrt(sum((x * x for x in v), ZERO))
-                ref = mkarr([x / nrm for x in v])
+                # the mean axis, whichever way it is computed: a unit vector v with S v = lambda_max(S) v (an axis: its sign is free)
+                ok_shape = isinstance(out, np.ndarray) and out.shape == (3,)
+                ctx.ob("C13.bingham", f"{letter}:shape", ok_shape, f"returned {getattr(out, 'shape', type(out).__name__)}", loc)
+                if not ok_shape:
+                    continue
                 used = set()
-                for o in (out.flat if isinstance(out, np.ndarray) else []):
+                for o in out.flat:
                     used |= {a for a in alg.atoms_of(lift(o), deep=True) if a.kind == "fn:eigh.vec"}
                 got_tri = {a.args[0] for a in used}
-                ctx.ob("C13.scatter", f"bingham_average:{letter}", same_tris(got_tri, tri), f"eigen-solver argument differs from sum_g a a^T of row {row}", loc)
-                ident_arr(ctx, "C13.bingham", letter, out, ref, loc)
+                if used:
+                    ctx.ob("C13.scatter", f"bingham_average:{letter}", same_tris(got_tri, tri), f"eigen-solver argument differs from sum_g a a^T of row {row}", loc)
+                else:
+                    ctx.observe(f"bingham_average({letter}) does not call a library symmetric eigen-solver; its axis is decided by the eigen-equation alone")
+                eigen_axis(ctx, "C13.bingham", letter, S, ev[2], out, loc)
         for bad in ("d", "x", "A"):
             f = public(ctx, I, D + fname)
             try:
@@ -183,7 +195,10 @@ def run(ctx):
         ctx.ob("C13.finite-strain", "shape", ok, "", locf)
         if ok:
             ident(ctx, "C13.finite-strain", "largest principal stretch - 1", out[0], Sqrt(ev[2]) - 1, locf)
-            ident_arr(ctx, "C13.finite-strain", "long axis = eigenvector of the largest eigenvalue of F·F^T", out[1], mkarr([vec[i][2] for i in range(3)]), locf)
+            if isinstance(out[1], np.ndarray) and out[1].shape == (3,):
+                eigen_axis(ctx, "C13.finite-strain", "long axis", B, ev[2], out[1], locf)
+            else:
+                ctx.ob("C13.finite-strain", "long axis:shape", False, f"returned {getattr(out[1], 'shape', type(out[1]).__name__)}", locf)
     except Abort:
         pass
-    ctx.floor("C13.finite-strain", 3)
+    ctx.floor("C13.finite-strain", 4)
